@@ -1193,7 +1193,8 @@ func hintSubset(mask int) (map[gozxing.DecodeHintType]interface{}, string) {
 	s := ""
 	for i, f := range flagHints {
 		if mask&(1<<uint(i)) != 0 {
-			h[f] = true
+			// "Doesn't matter what it maps to": the value rotates over true, untyped nil, struct{}{}, 1, false
+			h[f] = []interface{}{true, nil, struct{}{}, 1, false}[(mask+i)%5]
 			s += fmt.Sprint(i)
 		}
 	}
@@ -1498,6 +1499,7 @@ func main() {
 	runRows()
 	runImages()
 	runTall()
+	runHintValues()
 	chk.Finish()
 }
 
@@ -1548,6 +1550,9 @@ func replay() {
 		if m := parsePix(c.Pixels); m != nil {
 			readImageAll(l, m, []int{0, 1, 2, 3}, "replay", c.Target)
 		}
+	case "hint-value":
+		fmt.Println("replay of a hint-value case re-runs the whole hint-value family (the hint value is not serialisable in general)")
+		runHintValues()
 	default:
 		fmt.Println("replay of kind", c.Kind, "is re-run through the full check")
 	}
